@@ -1546,12 +1546,8 @@ func (w *Writer) writeWrappedMathHelpers(fn *ir.Function) {
 
 	// Scan for ExtractBits/InsertBits and generate per-type overloads.
 	// Matches Rust naga's write_wrapped_math_functions for ExtractBits/InsertBits.
-	type wrappedMathKey struct {
-		fun    ir.MathFunction
-		scalar ir.ScalarType
-		vecStr string // "" for scalar, "2"/"3"/"4" for vectors
-	}
-	wrappedMath := make(map[wrappedMathKey]struct{})
+	// The written-set lives in the writer: the overloads are module-level
+	// functions, and this method runs once per function of the module.
 	for _, expr := range fn.Expressions {
 		mathExpr, ok := expr.Kind.(ir.ExprMath)
 		if !ok {
@@ -1575,11 +1571,11 @@ func (w *Writer) writeWrappedMathHelpers(fn *ir.Function) {
 		default:
 			continue
 		}
-		key := wrappedMathKey{fun: mathExpr.Fun, scalar: scalar, vecStr: vecStr}
-		if _, done := wrappedMath[key]; done {
+		key := fmt.Sprintf("bits:%d:%d:%d:%s", mathExpr.Fun, scalar.Kind, scalar.Width, vecStr)
+		if _, done := w.wrappedMathHelpers[key]; done {
 			continue
 		}
-		wrappedMath[key] = struct{}{}
+		w.wrappedMathHelpers[key] = struct{}{}
 
 		// Build HLSL type name
 		var typeName string
